@@ -51,10 +51,12 @@ MC_STATS = re.compile(r"(\d+) states generated, (\d+) distinct states found, (\d
 def run_mc(name, workdir, level=None, timeout=3000, simulate=None, tier="quick"):
     """Run spec/mc/<name>/MC_<name> exhaustively.  Returns dict(states, distinct, wall, ok)."""
     import runner
+    label = name
+    name, _, variant = name.partition(":")         # "coopnet:slow" = spec/mc/coopnet/MC_coopnet_slow.cfg
     src = os.path.join(VERIF, "spec", "mc", name)
-    wd = os.path.join(workdir, "mc_" + name)
+    wd = os.path.join(workdir, "mc_" + label.replace(":", "_"))
     shutil.copytree(src, wd)
-    cfg = "MC_%s.cfg" % name
+    cfg = "MC_%s%s.cfg" % (name, "_" + variant if variant else "")
     if name == "coop" and tier != "thorough" and level != "full":
         cfg = "MC_coop2.cfg"
     if level is not None and level != "full":
@@ -67,7 +69,7 @@ def run_mc(name, workdir, level=None, timeout=3000, simulate=None, tier="quick")
                                extra=extra, timeout=timeout)
     m = MC_STATS.search(out)
     ok = "Model checking completed. No error has been found." in out
-    res = {"config": name, "ok": ok, "wall": round(wall, 1),
+    res = {"config": label, "ok": ok, "wall": round(wall, 1),
            "states": int(m.group(1)) if m else 0, "distinct": int(m.group(2)) if m else 0,
            "level": level}
     if not ok:
